@@ -288,9 +288,12 @@ def call_np(ip, name, args, kwargs, lineno):
             raise Unsupported("np.insert with array position/values")
         f = a.snapshot()
         if isinstance(p, int) and p == 0:
+            if hasattr(a, "prefix") and conc(v) == 0:
+                C = a.prefix[0]           # insert(cumsum(x), 0, 0)[i] = C(i): the exclusive prefix sums themselves
+                r = SArr.fresh(I(a.length) + 1, lambda i: C(I(i)), a.kind, a.enc)
+                r.prefix_fn = a.prefix
+                return r
             r = SArr.fresh(I(a.length) + 1, lambda i: Ite(I(i) == 0, v, f(I(i) - 1)), a.kind, a.enc)
-            if hasattr(a, "cumsum_of") and conc(v) == 0:
-                r.xsum_of = a.cumsum_of
             return r
         c.check("%s:insert.inbounds@L%s" % (fn, lineno), And(I(pos) >= 0, I(pos) <= I(a.length)), "safety", lineno)
         return SArr.fresh(I(a.length) + 1, lambda i: Ite(I(i) < I(pos), f(i), Ite(I(i) == I(pos), v, f(I(i) - 1))), a.kind, a.enc)
@@ -431,8 +434,29 @@ def arr_sum(a):
     return C(I(a.length))
 
 
+def concat_list2(arrs, lineno):
+    """row-wise concatenation of 2-D arrays with equal column counts (obligation)"""
+    M.use("np.concatenate (list of fixed count)")
+    cols = arrs[0].cols
+    for a in arrs[1:]:
+        M.same_len(cols, a.cols, "concatenate.cols", lineno)
+    fs = [a.snapshot2() for a in arrs]
+    offs = [0]
+    for a in arrs:
+        offs.append(conc(I(offs[-1]) + I(a.rows)))
+
+    def at2(i, j):
+        r = fs[-1](I(i) - I(offs[len(fs) - 1]), j)
+        for k in range(len(fs) - 2, -1, -1):
+            r = Ite(I(i) < I(offs[k + 1]), fs[k](I(i) - I(offs[k]), j), r)
+        return r
+    return SArr2.fresh(offs[-1], cols, at2, arrs[0].kind, arrs[0].enc)
+
+
 def concat_list(arrs):
     M.use("np.concatenate (list of fixed count)")
+    if arrs and all(isinstance(a, SArr2) for a in arrs):
+        return concat_list2(arrs, None)
     if not arrs:
         return SArr.fresh(0, lambda i: 0)
     fs = [a.snapshot() for a in arrs]
@@ -888,6 +912,7 @@ def ragged_ravel(ip, r, lineno):
     c.oblige("%s:ragged.lens.nonneg@L%s" % (c.fname, lineno),
              Forall(lambda i: Implies(in_range(i, n), I(fl(i)) >= 0)), "safety", lineno, "row lengths >= 0")
     C = r.C if r.C is not None else M.exclusive_prefix(fl, n)
+    M.prefix_monotone(C, fl, n, "ragged.lens.nonneg.lemma")
     row = c.fresh_fun("rowof")
     total = C(I(n))
     c.assume(Forall(lambda p: Implies(in_range(p, total), And(in_range(row(p), n), C(row(p)) <= I(p), I(p) < C(row(p) + 1))),
